@@ -220,7 +220,7 @@ static void run_zone(Ctx& c, vt::Rng& r, bool thorough, const std::vector<int64_
   std::vector<Tr> ch = chain(c, 2000);
   // sample of the chain
   std::vector<size_t> pick;
-  size_t want = fam_small ? 10 : thorough ? 400 : 48;
+  size_t want = fam_small ? 10 : thorough ? 64 : 48;
   if (ch.size() <= want) {
     for (size_t i = 0; i < ch.size(); ++i) pick.push_back(i);
   } else {
@@ -269,7 +269,7 @@ static void run_zone(Ctx& c, vt::Rng& r, bool thorough, const std::vector<int64_
   // instants at which the *specification* places rule-generated changes (spec -> impl panel)
   std::vector<int64_t> spec_tr;
   {
-    size_t cap = thorough ? 1200 : 90, step = spec_panel.size() > cap ? spec_panel.size() / cap + 1 : 1;
+    size_t cap = thorough ? 240 : 90, step = spec_panel.size() > cap ? spec_panel.size() / cap + 1 : 1;
     for (size_t i = (size_t)r.below(step); i < spec_panel.size(); i += step) spec_tr.push_back(spec_panel[i]);
   }
   for (int64_t t : spec_tr) {
@@ -372,7 +372,7 @@ static void run_zone(Ctx& c, vt::Rng& r, bool thorough, const std::vector<int64_
   }
   if (fam_history && !ch.empty()) {
     // C14: put the hidden hint in every bracket (one query landing there), then a fixed probe panel
-    size_t nb = thorough ? ch.size() : std::min<size_t>(ch.size(), 24);
+    size_t nb = std::min<size_t>(ch.size(), thorough ? 48 : 24);
     std::vector<int64_t> probes;
     probes.push_back(sat_add(ch.front().at, -5)); probes.push_back(sat_add(ch.front().at, 5));
     probes.push_back(sat_add(ch.back().at, -5)); probes.push_back(sat_add(ch.back().at, 5));
@@ -398,7 +398,7 @@ static void run_zone(Ctx& c, vt::Rng& r, bool thorough, const std::vector<int64_
       for (const civil_second& cs : around) ev_make(c, cs);
     }
     // long random call sequences
-    size_t n = thorough ? 3000 : 300;
+    size_t n = thorough ? 600 : 300;
     for (size_t k = 0; k < n; ++k) {
       const Tr& t = ch[(size_t)r.below(ch.size())];
       int64_t x = sat_add(t.at, r.range(-3, 3) * (r.below(3) ? 1 : 86400));
